@@ -217,6 +217,9 @@ def c08(tier, seed):
     jobs += sched_jobs(tier, seed + 9, gen=dict(nmin=4, nmax=10, mc_max=4, max_deps=1), flavour="both", scale=0.5, selections=True, dfs=False, stress=False)
     # the slots of an execution are its own: an AsyncDAG awaited in a loop whose (one-worker) default executor is busy with a job of
     # the application hands nothing to that executor - otherwise the scheduler idles for as long as the application likes
+    # limits beyond the usual: max_concurrency up to 14 with levels wider than that (the whole limit is usable, not "up to 8")
+    jobs += sched_jobs(tier, seed + 21, gen=dict(nmin=12, nmax=28, mc_max=14, max_deps=1, mix="thread", seq_rate=0.05), flavour="both", scale=0.25, dfs=False, stress=False)
+    jobs += sched_jobs(tier, seed + 23, gen=dict(nmin=12, nmax=28, mc_max=14, max_deps=1, mix="async", seq_rate=0.05), flavour="both", scale=0.25, dfs=False, stress=False)
     jobs += [dict(kind="env", pid="C08", scenarios=["loops"], n_cases=(30 if tier == "quick" else 300), only=["execution_handed_work_to_the_event_loops_default_executor"],
                   **_seeds(seed + 15, k)) for k in range(2 if tier == "quick" else 6)]
     return dict(
@@ -434,6 +437,9 @@ def c12(tier, seed):
         for p in range(16):
             jobs.append(dict(kind="sel", exhaustive_n=[4], part=p, nparts=16, random_shapes=120, nmin=5, nmax=9, triples_per_shape=60, **_seeds(seed, 1 + p)))
         ex = "all DAGs on 2..4 nodes x every (R, X, T)"
+    # selections that name many nodes (explicit lists of more than 16 ids, a tag shared by more than 16 nodes) on wide DAGs
+    jobs += [dict(kind="sel", exhaustive_n=[], random_shapes=0, wide_shapes=(6 if tier == "quick" else 40), triples_per_shape=25, **_seeds(seed + 73, k))
+             for k in range(2 if tier == "quick" else 6)]
     # "already-computed nodes": what an inner DAG had set up before the outer DAG was described is already computed for the outer one
     jobs += [dict(kind="hist11", pid="C12", nested_only=True, n_histories=(60 if tier == "quick" else 600),
                   only=["setup_node_ran_more_than_once_on_one_instance"], **_seeds(seed + 71, k)) for k in range(1 if tier == "quick" else 4)]
